@@ -18,6 +18,7 @@ type QSpec struct {
 	Requests map[string]string // reply subject -> payload kind: valid | empty | nopayload | malformed
 	FailSub  bool
 	Events   int // number of query events started
+	Shutdown bool // the service is shut down while the event is active: the nil call cannot run any more
 }
 
 const qDuration = time.Second
@@ -147,6 +148,27 @@ func init() {
 		mk("QE1-"+cb, cb, []string{"valid"}, false, false, 1)
 	}
 	mk("QE0", "model", nil, false, false, 1)
+	// QEshutdown: the service is shut down while a query event is active; the event expires afterwards.
+	reg(&Scenario{Name: "QEshutdown", Make: func(cfg Cfg) (func(), *Spec) {
+		qs := &QSpec{CB: "model", Requests: map[string]string{}, Events: 1, Shutdown: true}
+		sp := &Spec{Closes: 1, Shutdown: true, Query: qs}
+		return func() {
+			q := newQWorld(cfg)
+			sdone := make(chan struct{}, 1)
+			q.StartServe(sdone)
+			q.S.With("t.q", func(r res.Resource) {
+				q.CB("start0", r.Group(), "g")
+				r.QueryEvent(q.qcb("model", 0))
+			})
+			vsched.Recv(q.subj)
+			shutdown(q.World)
+			vsched.Recv(sdone)
+			vsched.Sleep(3 * qDuration)
+			vsched.AwaitQuiescence()
+			vsched.Sleep(3 * qDuration)
+			vsched.AwaitQuiescence()
+		}, sp
+	}})
 	mk("QE2", "model", []string{"valid", "malformed"}, false, false, 1)
 	mk("QEempty", "model", []string{"empty"}, false, false, 1)
 	mk("QEnopayload", "model", []string{"nopayload"}, false, false, 1)
@@ -229,7 +251,7 @@ func JudgeQuery(qs *QSpec, r *vsched.Result) []string {
 	if queryPubs != qs.Events {
 		add("%d query events published, want %d", queryPubs, qs.Events)
 	}
-	for ev := 0; ev < qs.Events; ev++ {
+	for ev := 0; ev < qs.Events && !qs.Shutdown; ev++ {
 		if n := nilCalls[fmt.Sprintf("nil%d", ev)]; n != 1 {
 			add("query event %d: callback invoked with nil %d times after expiry, want exactly once", ev, n)
 		}
@@ -281,7 +303,7 @@ func JudgeQuery(qs *QSpec, r *vsched.Result) []string {
 		}
 	}
 	for s := range subs {
-		if !released[s] {
+		if !released[s] && !qs.Shutdown {
 			add("subscription %s of the query event was never drained or unsubscribed", s)
 		}
 	}
